@@ -927,6 +927,17 @@ func c13Exhaustive(ctx *Ctx) {
 			run("range", []cty.Value{cty.NumberIntVal(int64(a)), cty.NumberIntVal(int64(b)), cty.Zero}, true)
 		}
 	}
+	for _, odd := range c13OddNumbers {
+		five, zero := cty.NumberIntVal(5), cty.NumberIntVal(0)
+		run("range", []cty.Value{odd}, false)
+		run("range", []cty.Value{zero, odd}, false)
+		run("range", []cty.Value{odd, five}, false)
+		run("range", []cty.Value{zero, five, odd}, false)
+		run("range", []cty.Value{five, zero, odd}, false)
+		run("range", []cty.Value{odd, five, cty.NumberIntVal(1)}, false)
+		run("range", []cty.Value{five, odd, cty.NumberIntVal(-1)}, false)
+		run("range", []cty.Value{odd, odd, odd}, false)
+	}
 	for _, st := range []int{1, 2, 3, 1000, -1, -7} {
 		run("range", c13Ints(0, 1023*st, st), false)
 		run("range", c13Ints(0, 1024*st, st), false)
